@@ -88,12 +88,6 @@ class SkipStageHandler(StabilizeHandler[SkipStage]):
 
             logger.info("Skipped stage %s (%s)", stage.name, stage.id)
 
-            if self.event_recorder:
-                self.set_event_context(stage.execution.id if stage.execution else "")
-                self.event_recorder.record_stage_skipped(
-                    stage, reason="Stage skipped", source_handler="SkipStageHandler"
-                )
-
             # Get downstream stages and parent info BEFORE transaction
             execution = stage.execution
             downstream_stages = self.repository.get_downstream_stages(execution.id, stage.ref_id)
@@ -102,6 +96,16 @@ class SkipStageHandler(StabilizeHandler[SkipStage]):
             # Atomic: store stage + push all downstream/parent messages together
             with self.repository.transaction(self.queue) as txn:
                 txn.store_stage(stage)
+
+                # Recorded inside the transaction: the event commits or rolls
+                # back together with the skip it describes (recording it before
+                # the transaction left a durable stage.skipped event behind when
+                # the optimistic lock was lost).
+                if self.event_recorder:
+                    self.set_event_context(stage.execution.id if stage.execution else "")
+                    self.event_recorder.record_stage_skipped(
+                        stage, reason="Stage skipped", source_handler="SkipStageHandler"
+                    )
 
                 # Message deduplication
                 if message.message_id:
